@@ -85,12 +85,12 @@ def run_wire(v, tier, pred, plans):
             v.cov.setdefault("edge_cover", {})[tag] = dict(edges=len(g["edges"]), covered=len(g["edges"]), walks=len(walks),
                                                             random_walks=0, validated=n, states=g["nstates"])
             total += n
-    v.cov["divergences_outside_this_property"] = px.other
-    v.cov["distinct_nontrivial"] = total
-    v.cov["rule"] = ("behaviours of Framing.tla (depth 12: handshakes good/bad/short, frames of size classes 0,1,3,5 x scale, oversize, huge "
+    v.cov["divergences_outside_this_property"] = v.cov.get("divergences_outside_this_property", 0) + px.other
+    v.cov["distinct_nontrivial"] = v.cov.get("distinct_nontrivial", 0) + total
+    v.cov["rule"] = v.cov.get("rule", "") + (" ; " if v.cov.get("rule") else "") + ("behaviours of Framing.tla (depth 12: handshakes good/bad/short, frames of size classes 0,1,3,5 x scale, oversize, huge "
                      "length, bad ipc type, truncation + disconnect, on up to 3 connections over tcp and ipc) x I/O clamps; distinct = "
                      "behaviour x (scale, clamp) runs")
-    v.assumptions += ["tcp, ipc and socket:// (websocket is driven by C16; inproc and udp are not driven); PUSH/PULL stand for all protocols: framing and "
+    v.assumptions += ["tcp, ipc and socket:// in this replay (websocket is driven through wire/Ws.tla, inproc through wire/Inproc.tla, udp through wire/Udp.tla); PUSH/PULL stand for all protocols: framing and "
                       "negotiation live in the transports; raw-mode headers are not sent", "the I/O clamp hook sits in nni_aio_iov_clamp_len (posix_tcpconn.c, posix_ipcconn.c) "
                       "and in posix_sockfd.c, for reads and writes",
                       "real time: the driver waits (bounded) for what the specification expects and 25 ms more for what it does not"]
